@@ -161,6 +161,19 @@ var ignoreCodeLists = []func(code string, r *base.Rand) (string, string){
 		return "X", ""
 	},
 	func(c string, r *base.Rand) (string, string) { return "all", "all-lower" },
+	// the free-form reason after the list happens to start with a word that is also a code word
+	func(c string, r *base.Rand) (string, string) { return "ZZ99 all writes here are intended", "reason-starts-with-all" },
+	func(c string, r *base.Rand) (string, string) {
+		return c + " " + strings.ToLower(CategoryOfCode(c)) + " rules are checked elsewhere, ALL of them", "reason-starts-with-category"
+	},
+	func(c string, r *base.Rand) (string, string) {
+		for _, cat := range Categories {
+			if cat != CategoryOfCode(c) {
+				return cat + " " + c + " is what we would need here", "reason-starts-with-the-code"
+			}
+		}
+		return "X", ""
+	},
 }
 
 // NCodeLists is the number of code-list shapes.
